@@ -353,7 +353,15 @@ func (d *Document) PrintValue(value Value, w io.Writer) (err error) {
 			_, err = w.Write(literal.QUOTE)
 			_, err = w.Write(literal.QUOTE)
 		}
-		_, err = w.Write(d.Input.ByteSlice(d.StringValues[value.Ref].Content))
+		content := d.Input.ByteSlice(d.StringValues[value.Ref].Content)
+		if isBlockString {
+			// a block string that was lexed from the input is printed with the white space next to its
+			// delimiters: the trimmed content alone denotes a different value (or does not even lex)
+			if source, ok := d.blockStringSourceBytes(d.StringValues[value.Ref].Content); ok {
+				content = source
+			}
+		}
+		_, err = w.Write(content)
 		_, err = w.Write(literal.QUOTE)
 		if isBlockString {
 			_, err = w.Write(literal.QUOTE)
